@@ -28,8 +28,10 @@ type sqlResult struct {
 }
 
 type sqlCtx struct {
-	results []sqlResult
-	data    value
+	results  []sqlResult
+	data     value
+	nochange bool // sqlite3_vtab_nochange(): the column is fetched for an UPDATE that does not change it
+	asked    bool // the callback consulted NoChange()
 }
 
 func mkSQLValue(v *sqlVal) value {
@@ -116,6 +118,19 @@ func init() {
 		cp, _ := newCtx(fr)
 		var vt value = structure{cp} // VirtualTableContext{*Context}
 		return &vt
+	}
+	// symSQLContextNoChange(): like symSQLContext, but sqlite3_vtab_nochange() answers true
+	I["symSQLContextNoChange"] = func(fr *frame, a []value) value {
+		cp, c := newCtx(fr)
+		c.nochange = true
+		var vt value = structure{cp}
+		return &vt
+	}
+	H["(*"+sq+".VirtualTableContext).NoChange"] = func(fr *frame, a []value) value {
+		outer := (*a[0].(*value)).(structure)
+		c := sqlCtxOfContext(*outer[0].(*value))
+		c.asked = true
+		return c.nochange
 	}
 	I["symSQLAggContext"] = func(fr *frame, a []value) value {
 		cp, _ := newCtx(fr)
